@@ -59,6 +59,32 @@ CHECKS = {
         'ref': 'DESIGN.md section 3 C08', 'note': NOTE_COMMON,
         'technique': 'deterministic simulation: reference model + lock-section trace to judge concurrent snapshots',
     },
+    'C09': {
+        'text': 'Seeded configurations and node trees (boards present, absent, lost and re-logged-in at another address) with histories of every high-level command over '
+                'every configured id x every aspect / every speed -126..126 and out of range / every function bit, plus unknown ids, undefined aspects and disconnected boards, '
+                'run while the receiver and auto-flush threads are scheduled at random. An independent config->message reference (own speed and function-group encoding, own '
+                'function-bit history) gives the exact expected downlink messages per accepted call; a rejected call must add nothing to the wire and leave bidib_get_state '
+                'unchanged; optimistic state is compared with the reference after each call.',
+        'ref': 'DESIGN.md section 3 C09', 'note': NOTE_COMMON + '; the values are generated per run, the history dependence (function bits, direction at speed 0, address changes after re-login) is what the simulation adds',
+        'technique': 'deterministic simulation: command histories against SimBus with topology events + config->message reference model on the wire',
+    },
+    'C17': {
+        'text': 'Seeded worlds and state histories; every getter is called with known ids, unknown ids and NULL at random points of the history, its result is scanned for bytes '
+                'still holding the simulator\'s fill patterns (stack 0xAA auto-init pattern, heap 0xA5 fill: an unset field is visible without Memcheck), canonicalised and retained '
+                'while the state keeps changing, across bidib_stop and a following session, then compared again and passed to its free function exactly once under ASan. At '
+                'quiescent points the whole-track snapshot is compared field by field with all single-entity getters.',
+        'ref': 'DESIGN.md section 3 C17', 'note': NOTE_COMMON + '; definedness by fill-pattern scan of the returned struct instead of Valgrind Memcheck (a field that happens to be set to the pattern byte value would be misjudged; the scan therefore requires whole-field matches of the 0xAA/0xA5 patterns)',
+        'technique': 'deterministic simulation: retained query results across state changes / stop / restart + fill-pattern definedness scan + snapshot-vs-getter differential under ASan',
+    },
+    'C20': {
+        'text': 'Seeded configurations (features and initial values on any subset of boards, accessories and trains) x node trees with any subset of the configured boards present, '
+                'boards answering feature requests with the requested or another value, delayed and chunked answers, spontaneous occupancy traffic during the dialogue, and a system '
+                'reset later in the session (answers are never lost here: the start-up dialogue has no timeout and would rightly wait). The complete decoded downlink transcript of every start-up / reset dialogue is checked against a transcript model: features only to their '
+                'connected board and before SYS_ENABLE, every connected track output switched on, then every initial aspect exactly once and every initial train function once per '
+                'connected track output with the encoding of the high-level command, nothing for absent boards.',
+        'ref': 'DESIGN.md section 3 C20', 'note': NOTE_COMMON,
+        'technique': 'deterministic simulation: start-up / reset dialogue against SimBus with delayed / chunked / alternative answers + transcript reference model',
+    },
     'C10': {
         'text': 'One concurrent workload (2-16 tasks mixing reads, flush, low-/high-level sends and every getter, continuous uplink traffic, auto-flush) under the deterministic '
                 'scheduler with three detectors: a ThreadSanitizer build in which the baton hand-off is invisible and all harness code is bracketed by ignore annotations, so only '
